@@ -418,6 +418,20 @@ def history_job(job):
                 check_wtml_vs_disk(out, part, "tile_fits-%s-override-after-deeper" % method, cfg)
             except Exception as e:
                 part.violation("tile_fits/raises:%s/%s" % (type(e).__name__, method), "%r: %r" % (cfg, e), cfg)
+        # the same tiling with worker processes (descriptions and sub-tilings travel through a queue)
+        if ninputs > 1:
+            shutil.rmtree(out, ignore_errors=True)
+            cfg = {"method": method, "inputs": ninputs, "history": ["fresh-parallel-2", "reuse"], "parallel": 2}
+            part.case(nontrivial=True)
+            transitions += 2
+            try:
+                for hname in ("fresh", "reuse"):
+                    with quiet():
+                        od, bld = toasty.tile_fits(paths, out_dir=out, tiling_method=tm, parallel=2, **dict(kw))
+                    compare_builder_with_disk(bld, out, part, "%s/parallel-%s" % (method, hname), cfg)
+                    check_wtml_vs_disk(out, part, "tile_fits-%s-parallel-%s" % (method, hname), cfg)
+            except Exception as e:
+                part.violation("tile_fits/raises:%s/%s-parallel" % (type(e).__name__, method), "%r: %r" % (cfg, e), cfg)
         # every default: no output directory named (it is derived from the first input's name) and the tiling
         # method left to be detected; fresh, then reused
         if method == "TAN" or ninputs > 1:
